@@ -954,7 +954,10 @@ def run(ctx):
     # one job list, longest jobs first, so that 16 workers stay busy
     jobs = [("program", (subseed(ctx.seed, PID, w), n, TARGETS[w % 2], open_ids, sizes)) for w in range(nprog)]
     jobs += [("mem", (t, ctx.quick, open_ids)) for t in TARGETS]
-    pj = [("probe", (ops, target, tier, open_ids, None)) for target in TARGETS for ops in probe_groups()]
+    # unary instructions and conversions cost one call per operand: they get the full pool in the quick tier too
+    rest = {t: [v for v in FULL_POOL[t] if v not in QUICK_POOL[t]] for t in FULL_POOL}
+    pj = [("probe", (ops, target, tier, open_ids, rest if ctx.quick and len(R.SIG[ops[0]][0]) == 1 else None))
+          for target in TARGETS for ops in probe_groups()]
     pj.sort(key=lambda j: -len(j[1][0]) * (8 if len(R.SIG[j[1][0][0]][0]) == 2 else 1))
     jobs += [("comp", (vt, target, tier, open_ids)) for target in TARGETS for vt in ("f64", "f32", "i64", "i32")]
     jobs += pj
